@@ -183,16 +183,8 @@ static void h_step_load (int k) {
   int expect = 0;
   for (int n = 0; n < 2; n++)
     if (h_shape[k][n] == S_XFUNC && h_map[n].kind == D_MIR && h_map[n].func_p && !h_perm) expect = 1;
-#ifdef H_FUNC_OVER_NONFUNC /* see props/C13.py: 0 = such loads are outside this obligation, 1 = only such loads */
-  for (int n = 0; n < 2; n++)
-    if (h_shape[k][n] == S_XFUNC && h_map[n].kind != D_NONE && !(h_map[n].kind == D_MIR && h_map[n].func_p) && !h_perm) {
-#if H_FUNC_OVER_NONFUNC == 0
-      H_ASSUME (0);
-#else
-      h_w_redef_ok = 1;
-#endif
-    }
-#endif
+  /* a function loaded over an external address or exported data of the same name is the FIRST exported function: accepted, and later
+     links bind to it (no exclusion: regression obligations redef.* / full.* pin this case, /repo fix b052695f) */
   h_err_expected = expect;
   h_err_code_expected = expect ? (int) MIR_repeated_decl_error : -1;
   MIR_load_module (ctx, &h_mod[k]);
